@@ -147,10 +147,18 @@ def _get(case):
                                                   0x0120: g['fields'].get(0x0110),
                                                   0x0800: 0x0101, 0x0900: 0xFF00, 0x1020: 0,
                                                   0x1021: len(subs), 0x1022: 0, 0x1023: 0})
+                # a warning / failure conclusion carries an Identifier (Failed SOP Instance UID
+                # List) - a data set kept in memory, right behind instances kept in files
+                ident = None
+                if final_status in (0xB000, 0xA702, 0xC001) and (case['seed'] % 3) != 0:
+                    uid_ = b'1.2.3.4.5.6'
+                    ident = b'\x08\x00\x58\x00' + len(uid_ + b'\x00').to_bytes(4, 'little') + \
+                        uid_ + b'\x00'
                 peer.send_message(g['pcid'], {0x0002: GET, 0x0100: 0x8010,
-                                              0x0120: g['fields'].get(0x0110), 0x0800: 0x0101,
+                                              0x0120: g['fields'].get(0x0110),
+                                              0x0800: 0x0101 if ident is None else 1,
                                               0x0900: final_status, 0x1020: 0, 0x1021: len(subs),
-                                              0x1022: 0, 0x1023: 0})
+                                              0x1022: 0, 0x1023: 0}, ident)
                 state['final_sent'] = True
                 return
             s = subs[i]
